@@ -71,7 +71,7 @@ def run(ctx):
     import numpy as np
     from dtaidistance import dtw, dtw_ndim, dtw_barycenter, dtw_cc
     rng = ctx.rng
-    N = 150 if ctx.quick else 3500
+    N = ctx.scale(1500, 18000)
     for it in range(N):
         n = rng.choice([2, 3, 4, 5, 9, 10])
         nd = rng.choice([0, 0, 2, 2, 3])   # ndim 1 = univariate series
